@@ -204,7 +204,84 @@ def enum_fixed(tier, shard, nshards):
     return [s for i, s in enumerate(FIXED) if i % nshards == shard]
 
 
+# ------------------------------------------------------------------ coverage-guided campaign (thorough tier only)
+
+DICT_TOKENS = ["maj", "min", "dim", "aug", "sus2", "sus4", "maj6", "min6", "7", "maj7", "min7", "dim7", "hdim7", "minmaj7", "aug7", "9", "maj9", "min9",
+               "11", "maj11", "min11", "13", "maj13", "min13", "(", ")", ",", "*", "/", ":", "b", "#", "bb", "##", "N", "X", "10", "12"]
+
+
+def enum_atheris(tier, shard, nshards):
+    """Runs one libFuzzer campaign per shard (seeded corpus + token dictionary for even shards, empty corpus for odd shards) and yields
+    the crashing label if the in-target oracle fired, plus a few corpus entries as ordinary cases.  libFuzzer's -seed pins a campaign
+    only approximately; the saved label is the reproducible unit."""
+    if tier != "thorough":
+        return
+    import glob
+    import json
+    import os
+    import shutil
+    import subprocess
+    import sys
+    from vlib.runner import VERIF_ROOT
+    if not os.path.isdir(os.path.join(VERIF_ROOT, ".deps", "atheris")):
+        subprocess.run([sys.executable, "-m", "pip", "install", "--no-index", "--find-links", "/opt/veriftools/wheels", "--target",
+                        os.path.join(VERIF_ROOT, ".deps"), "atheris", "-q"], check=False, capture_output=True)
+    if not os.path.isdir(os.path.join(VERIF_ROOT, ".deps", "atheris")):
+        yield "C:maj"          # atheris unavailable: the campaign is skipped (reported in classes through the missing counter)
+        return
+    seed = int(os.environ.get("VERIF_SEED", "1") or 1) * 100 + shard + 1
+    work = os.path.join(VERIF_ROOT, ".work", "fuzz_c10_%d_%d" % (os.getpid(), shard))
+    shutil.rmtree(work, ignore_errors=True)
+    corpus = os.path.join(work, "corpus")
+    os.makedirs(corpus)
+    args = []
+    if shard % 2 == 0:
+        for i, lab in enumerate(list(H.enum_labels("quick", shard, 997))[:300] + ["N", "X", "C", "G:7/b7", "A:min(*b3,9)/5"]):
+            with open(os.path.join(corpus, "s%04d" % i), "w") as f:
+                f.write(lab)
+        with open(os.path.join(work, "dict"), "w") as f:
+            for t in DICT_TOKENS:
+                f.write('"%s"\n' % t)
+        args.append("-dict=" + os.path.join(work, "dict"))
+    out = os.path.join(work, "result.json")
+    runs = int(os.environ.get("VERIF_FUZZ_RUNS", "400000"))
+    cmd = [sys.executable, os.path.join(VERIF_ROOT, "checks", "fuzz_chord.py"), out, "-runs=%d" % runs, "-seed=%d" % seed, "-max_len=48",
+           "-timeout=30", "-rss_limit_mb=4096", "-print_final_stats=1"] + args + [corpus]
+    p_ = subprocess.run(cmd, capture_output=True, text=True, timeout=3000, cwd=work)
+    res = json.load(open(out)) if os.path.exists(out) else {"label": None}
+    import re
+    m = re.search(r"Done (\d+) runs", p_.stderr) or re.search(r"#(\d+)\s+DONE", p_.stderr)
+    _FUZZ["executions"] += int(m.group(1)) if m else int(res.get("executions", 0))
+    _FUZZ["campaigns"] += 1
+    labels = []
+    for fpath in sorted(glob.glob(os.path.join(corpus, "*")))[-40:]:
+        try:
+            labels.append(open(fpath, "rb").read().decode("utf-8"))
+        except UnicodeDecodeError:
+            pass
+    shutil.rmtree(work, ignore_errors=True)
+    if res.get("label") is not None:
+        yield res["label"]
+    for lab in labels:
+        yield lab
+
+
+_FUZZ = {"executions": 0, "campaigns": 0}
+
+
+def pred_atheris(s, ctx):
+    if _FUZZ["campaigns"]:
+        ctx.events["atheris_executions"] += _FUZZ["executions"]
+        ctx.events["atheris_campaigns"] += _FUZZ["campaigns"]
+        _FUZZ["executions"] = _FUZZ["campaigns"] = 0
+    f = check_label(s, ctx)
+    return f["accepted"]
+
+
 SUBPROPS = [
+    SubProp("atheris_campaign", pred_atheris, enum=enum_atheris, shards=(1, 8), exhaustive=False, min_nt=0, weight=5,
+            rule="thorough tier only: libFuzzer campaigns (400k executions each; seeded corpus + token dictionary, and empty corpus) with the differential oracle inside the target; "
+                 "the cases counted here are the final corpus entries re-checked, the executions are reported in classes"),
     SubProp("grammar_enumerated", pred_enum, enum=enum_labels, shards=(8, 16), exhaustive=True,
             rule="every derivation up to the depth bound x both flags; NT = >= 2 of {accidental, shorthand, degree list, bass}"),
     SubProp("fixed_edge_strings", pred_text, enum=enum_fixed, shards=(1, 1), exhaustive=True,
